@@ -1050,7 +1050,22 @@ func c16LargeViews(ctx *Ctx, r *rand.Rand) {
 	os.RemoveAll(filepath.Join(ctx.Scratch, "hlarge"))
 }
 
+// c16Zone: the shard's local time zone (fixed offsets up to +14:00 / -12:00, and zones whose clocks went back ten minutes
+// before the run started or will 55 minutes after it: the repeated wall-clock hour is now). Shards 0 and 10 keep the zone of
+// the machine.
+func c16Zone(ctx *Ctx) {
+	if z, ok := vlib.ZoneFor(ctx.Shard, time.Now()); ok {
+		time.Local = z.Location()
+		ctx.R.Path("runs-in-a-generated-time-zone", 1)
+		if k := ctx.Shard % 10; k >= 6 {
+			ctx.R.Path("runs-around-a-clock-change", 1)
+		}
+		ctx.R.Extra["time_zone"] = z.Name
+	}
+}
+
 func engineHistModel(ctx *Ctx) {
+	c16Zone(ctx)
 	n := ctx.N(5000, 100000)
 	base := filepath.Join(ctx.Scratch, "hm")
 	c16LargeViews(ctx, vlib.NewRand(ctx.Seed, ctx.Shard, "histmodel/large"))
@@ -1442,11 +1457,52 @@ func c16RunFile(ctx *Ctx, path string, f c16File) {
 		})
 	}
 	var serr error
+	afterAdd := append([]history.SearchEntry(nil), sh.Entries...)
 	if !ctx.R.Guard("C16", "Save", cs, func() { serr = sh.Save() }) {
 		return
 	}
 	if serr != nil {
 		ctx.R.Path("files-save-error", 1)
+	}
+	if lerr == nil {
+		// a history that loaded, with the search just recorded, is saved and read back: the same entries
+		if serr != nil {
+			ctx.R.Violate(vlib.Violation{Property: "C16", Clause: "roundtrip", Path: "Load+AddEntry+Save",
+				Detail: fmt.Sprintf("the file loaded (%d entries); after recording one search Save fails: %v", nBefore, serr), Witness: cs})
+			return
+		}
+		var back *history.SearchHistory
+		var berr error
+		if !ctx.R.Guard("C16", "Load+AddEntry+Save+Load", cs, func() {
+			back = history.NewSearchHistory(path, sh.MaxSize)
+			berr = back.Load()
+		}) {
+			return
+		}
+		want := afterAdd
+		if sh.MaxSize > 0 && len(want) > sh.MaxSize {
+			want = want[len(want)-sh.MaxSize:]
+		}
+		diff := ""
+		switch {
+		case berr != nil:
+			diff = "Load of the file just saved fails: " + berr.Error()
+		case len(back.Entries) != len(want):
+			diff = fmt.Sprintf("%d entries were saved, %d come back", len(want), len(back.Entries))
+		default:
+			for i := range want {
+				if c16Coerce(want[i].Query) != back.Entries[i].Query || !want[i].Timestamp.Equal(back.Entries[i].Timestamp) || want[i].ResultsCount != back.Entries[i].ResultsCount {
+					diff = fmt.Sprintf("entry %d was saved as (%s, %s, %d) and comes back as (%s, %s, %d)", i, c16Show(want[i].Query), want[i].Timestamp.Format(time.RFC3339Nano), want[i].ResultsCount,
+						c16Show(back.Entries[i].Query), back.Entries[i].Timestamp.Format(time.RFC3339Nano), back.Entries[i].ResultsCount)
+					break
+				}
+			}
+		}
+		if diff != "" {
+			ctx.R.Violate(vlib.Violation{Property: "C16", Clause: "roundtrip", Path: "Load+AddEntry+Save+Load", Detail: diff, Witness: cs})
+			return
+		}
+		ctx.R.Path("files-saved-and-read-back", 1)
 	}
 	ctx.R.Guard("C16", "GetRecentQueries", cs, func() { sh.GetRecentQueries(5) })
 	ctx.R.Guard("C16", "GetTopQueries", cs, func() { sh.GetTopQueries(5) })
@@ -1461,11 +1517,25 @@ func engineHistFiles(ctx *Ctx) {
 		panic(err)
 	}
 	path := filepath.Join(dir, "search_history.json")
+	c16Zone(ctx)
 
 	// 1. the hand-written catalogue, dealt over the shards
 	for i, f := range c16Catalogue() {
 		if i%ctx.NShards == ctx.Shard {
 			c16RunFile(ctx, path, f)
+		}
+	}
+	// 1b. entries dated at the ends of the representable years, with and without zone offsets: every shard (each in its own zone)
+	for _, ts := range []string{"9999-12-31T23:59:59Z", "9999-12-31T23:59:59.999999999Z", "9999-12-31T21:15:00-05:00", "9999-12-31T23:59:59-00:01",
+		"9999-12-31T12:00:00-12:00", "9999-12-31T23:59:59+14:00", "9999-12-31T10:00:00+00:00", "0000-01-01T00:00:00Z", "0000-01-01T00:30:00+01:00",
+		"0000-01-01T00:00:00+00:01", "0000-01-01T13:59:59+14:00", "0000-01-01T00:00:00-12:00", "0001-01-01T00:00:00Z", "1970-01-01T00:00:00Z",
+		"1969-12-31T23:59:59.999999999-00:01", "2038-01-19T03:14:08Z", "2262-04-11T23:47:16.854775808Z", "1677-09-21T00:12:43.145224191Z"} {
+		for _, second := range []string{"", `,{"query":"later","timestamp":"2025-06-01T12:00:00+02:00","results_count":2}`} {
+			c16WantEntries = 1 + len(second)/40
+			c16RunFile(ctx, path, c16File{"valid", "entry dated " + ts + " (" + fmt.Sprint(c16WantEntries) + " entries)",
+				[]byte(`{"entries":[{"query":"old","timestamp":"` + ts + `","results_count":1}` + second + `],"max_size":100}`)})
+			c16WantEntries = -1
+			ctx.R.Path("files-dated-at-the-ends-of-the-calendar", 1)
 		}
 	}
 	// 2. every truncation of valid 5-entry files (all shards together cover every offset)
